@@ -121,6 +121,8 @@ def run_sender(case) -> CaseResult:
     try:
         sent: Dict[Optional[int], List[bytes]] = {None: [], STDERR: []}
         k = 0
+        peer_eof = False
+        peer_sent = 0
 
         for op in case['ops']:
             if op[0] == 'w':
@@ -137,6 +139,25 @@ def run_sender(case) -> CaseResult:
                     labels.add('write>window')
                 if n > P:
                     labels.add('write>maxpkt')
+            elif op[0] == 'rpause':
+                # the WRITING application pauses its own reading
+                link.h.call(chan.pause_reading)
+                labels.add('writer-paused-reading')
+            elif op[0] == 'rresume':
+                link.h.call(chan.resume_reading)
+            elif op[0] == 'peer-data':
+                # the peer sends data the other way (inside the window
+                # asyncssh granted), possibly while asyncssh has paused
+                n = min(op[1], max(rch.send_window, 0), rch.send_maxpkt)
+                if n > 0 and not peer_eof:
+                    conn.data(rch, payload(200 + k, n))
+                    peer_sent += n
+                    labels.add('peer-data')
+            elif op[0] == 'peer-eof':
+                if not peer_eof:
+                    conn.eof(rch)
+                    peer_eof = True
+                    labels.add('peer-eof')
             elif op[0] == 'adj':
                 room = 0xffffffff - (rch.recv_window_total -
                                      rch.received_total)
@@ -158,6 +179,11 @@ def run_sender(case) -> CaseResult:
                     'sender-stalled')
 
         total = sum(len(b) for v in sent.values() for b in v)
+
+        if link.conn.is_closed() or link.rp.lost or ref_dead(link):
+            raise Violation('connection-died', 'the connection ended during '
+                            'a conforming exchange (peer EOF: %s)' % peer_eof,
+                            'sender-connection-died')
 
         # liveness: keep granting window while data is outstanding
         for _ in range(64):
@@ -191,6 +217,10 @@ def run_sender(case) -> CaseResult:
         return CaseResult(sorted(labels), nontrivial)
     finally:
         link.close()
+
+
+def ref_dead(link) -> bool:
+    return link.ref.disconnected is not None
 
 
 def check_flow(rch, link) -> None:
@@ -357,7 +387,9 @@ def sender_strategy(tier: str):
             st.tuples(st.just('w'), size, st.booleans()).map(list),
             st.tuples(st.just('w'), size, st.booleans()).map(list),
             st.tuples(st.just('adj'), pick([1, 2, 5, 64, 1000, 1 << 16,
-                                            1 << 21])).map(list))
+                                            1 << 21])).map(list),
+            pick([['rpause'], ['rresume'], ['peer-eof'], ['peer-data', 1],
+                  ['peer-data', 100], ['peer-data', 5000]]))
         return {'role': draw(pick(['server', 'client'])), 'window': W,
                 'maxpkt': P,
                 'ops': draw(st.lists(op, min_size=1, max_size=12))}
@@ -383,6 +415,7 @@ FAMILIES = [
            budget={'quick': 1500, 'thorough': 20000},
            required={'all': ['role:server', 'role:client', 'write>window',
                              'write>maxpkt', 'adjust', 'window:0',
+                             'peer-eof', 'peer-data', 'writer-paused-reading',
                              'window:1', 'maxpkt:1']},
            case_timeout=120, timeout_is_violation=True),
     Family('receiver', run_receiver, strategy=receiver_strategy,
